@@ -25,6 +25,7 @@ use vmm_sys_util::eventfd::EventFd;
 use crate::daemon_fx::{new_eventfd, BeCfg, EventHook, Fx, Sess, VMutex, VRw, Wrap, GM};
 use crate::engine::Ctx;
 use crate::fdtrack::memfd;
+use crate::rawclient::RawClient;
 use crate::rawpeer;
 use crate::spec::{self, fe};
 
@@ -545,6 +546,69 @@ pub fn run_hist(ctx: &mut Ctx, h: &Hist) -> Result<(), String> {
     }
 }
 
+// ------------------------------------------------------------------ SET_FEATURES against arbitrary offered masks
+
+#[derive(Serialize, Deserialize, Debug, Clone)]
+pub struct FeatCase {
+    pub offered: u64,
+    pub masks: Vec<u64>,
+    pub wrap: Wrap,
+}
+
+/// "SET_FEATURES is accepted only for a subset of the offered features and then delivers exactly those bits": the device
+/// offers an arbitrary mask (also without bit 30, where no acknowledgements exist: acceptance is seen from the connection
+/// surviving — the daemon drops it on a refused request — and from what the back end was told).
+pub fn run_feat_case(ctx: &mut Ctx, c: &FeatCase) -> Result<(), String> {
+    let cfg = BeCfg { num_queues: 2, max_queue_size: 64, features: c.offered, ..Default::default() };
+    let mut fx: Fx<VRw> = Fx::new_wrapped(cfg, c.wrap).map_err(|e| format!("fixture: {e}"))?;
+    fx.connect().map_err(|e| format!("fixture: {e}"))?;
+    let mut cl = RawClient::new(fx.peer.as_ref().unwrap().try_clone().unwrap());
+    let mut told = 0usize;
+    let res = (|| -> Result<(), String> {
+        let (b, _) = cl.get(fe::GET_FEATURES, &[], &[]).map_err(|e| format!("GET_FEATURES: {e}"))?;
+        let got = spec::rd_u64(&b, 0);
+        if got != c.offered {
+            return Err(format!("GET_FEATURES returned {got:#x}, the device offers {:#x}", c.offered));
+        }
+        for m in &c.masks {
+            cl.send(fe::SET_FEATURES, false, &spec::b_u64(*m), &[]).map_err(|e| format!("send: {e}"))?;
+            // a reply-bearing request behind it tells whether the connection survived
+            let alive = cl.get(fe::GET_FEATURES, &[], &[]).is_ok();
+            let subset = m & !c.offered == 0;
+            ctx.class(if subset { "features_subset_of_arbitrary_offer" } else { "features_not_subset_of_arbitrary_offer" });
+            if subset != alive {
+                return Err(format!(
+                    "offered {:#x}, SET_FEATURES({m:#x}) is {} but was {}",
+                    c.offered,
+                    if subset { "a subset".to_string() } else { format!("not a subset (extra bits {:#x})", m & !c.offered) },
+                    if alive { "accepted" } else { "refused (connection dropped)" }
+                ));
+            }
+            if alive {
+                told += 1;
+                let st = fx.be.st.lock().unwrap();
+                if st.acked_features.len() != told || st.acked_features.last() != Some(m) {
+                    return Err(format!("offered {:#x}, SET_FEATURES({m:#x}) accepted: the back end was told {:x?}", c.offered, st.acked_features));
+                }
+            } else {
+                let st = fx.be.st.lock().unwrap();
+                if st.acked_features.len() != told {
+                    return Err(format!("offered {:#x}, SET_FEATURES({m:#x}) refused, yet the back end was told {:x?}", c.offered, st.acked_features));
+                }
+                drop(st);
+                fx.reconnect().map_err(|e| format!("reconnect: {e}"))?;
+                cl = RawClient::new(fx.peer.as_ref().unwrap().try_clone().unwrap());
+            }
+        }
+        Ok(())
+    })();
+    ctx.nontrivial(&(c.offered, &c.masks, c.wrap));
+    ctx.sample(|| json!({"feat_case": c}));
+    drop(cl);
+    fx.teardown();
+    res
+}
+
 fn ring_strategy() -> impl Strategy<Value = u8> {
     prop_oneof![8 => 0u8..3, 1 => Just(3u8), 1 => Just(255u8), 1 => 3u8..=255]
 }
@@ -583,7 +647,7 @@ pub fn run(ctx: &mut Ctx) {
                 (index 0..=255, sizes around every power of two, 0, random), SET_VRING_BASE, SET_VRING_ADDR (address triples anywhere legal inside \
                 the two regions, or one address just outside; used index pre-written to guest memory), GET_VRING_BASE, SET_FEATURES (subset / \
                 superset / disjoint masks), SET_PROTOCOL_FEATURES+SET_BACKEND_REQ_FD, SET_VRING_CALL new/none, SET_VRING_KICK new/none (the ring is started before / between the configuration messages), and add_used+signal_used_queue run \
-                inside the worker; 3 rings; back end direct / Mutex / RwLock wrapped x VringMutex / VringRwLock. Non-trivial = a history that \
+                inside the worker; 3 rings; back end direct / Mutex / RwLock wrapped x VringMutex / VringRwLock. Plus SET_FEATURES sequences against devices offering arbitrary masks (also without bit 30). Non-trivial = a history that \
                 configures ring >= 1, uses base or used index != 0, a strict-subset feature mask, a new request channel, or add_used after a \
                 table change; distinct histories."
         .into();
@@ -595,4 +659,28 @@ pub fn run(ctx: &mut Ctx) {
     let wrap = prop_oneof![Just(Wrap::Direct), Just(Wrap::Mutex), Just(Wrap::RwLock)];
     let strat = (any::<bool>(), wrap, proptest::collection::vec(op_strategy(), 1..=24), any::<bool>()).prop_map(|(rwlock, wrap, ops, device_omits_reply_ack)| Hist { rwlock, wrap, ops, device_omits_reply_ack });
     ctx.prop_check("histories", cases, strat, |ctx, h| run_hist(ctx, h));
+
+    // SET_FEATURES relative to arbitrary offered masks (the histories above use one fixed offer that contains bit 30)
+    let cases = ctx.tier.pick(400u32, 20_000u32);
+    let offered = prop_oneof![
+        2 => Just(OFFERED),
+        2 => Just(OFFERED & !spec::VIRTIO_F_PROTOCOL_FEATURES),
+        1 => Just(0u64),
+        1 => Just(u64::MAX),
+        3 => any::<u64>(),
+        2 => crate::engine::lat64(),
+    ];
+    let strat = offered.prop_flat_map(|off| {
+        let m = prop_oneof![
+            2 => Just(off),
+            3 => any::<u64>().prop_map(move |x| x & off),
+            3 => (0u32..64).prop_map(move |b| off | (1u64 << b)),
+            1 => (0u32..64).prop_map(|b| 1u64 << b),
+            1 => Just(spec::VIRTIO_F_PROTOCOL_FEATURES),
+            1 => any::<u64>(),
+            1 => Just(0u64),
+        ];
+        (Just(off), proptest::collection::vec(m, 1..=4), prop_oneof![Just(Wrap::Direct), Just(Wrap::Mutex), Just(Wrap::RwLock)])
+    }).prop_map(|(offered, masks, wrap)| FeatCase { offered, masks, wrap });
+    ctx.prop_check("features_vs_arbitrary_offer", cases, strat, |ctx, c| run_feat_case(ctx, c));
 }
